@@ -135,7 +135,9 @@ def tie_filterm(case):
     return t
 
 
-GEN = {'tie-filterm': (gen_filterm, tie_filterm)}
+from harness.props import c02_multi  # noqa: E402
+
+GEN = {'tie-filterm': (gen_filterm, tie_filterm), 'tie-multi': (c02_multi.gen_multi, c02_multi.tie_multi)}
 
 DIRECTED = [
     # D = [[0,1],[0,0]] at every frequency: conjugating without transposing is not the adjoint (Bad.filterM_conj_only_not_adjoint)
@@ -152,7 +154,7 @@ DIRECTED = [
 
 
 def run_ties(ctx, counts):
-    cases = [dict(c) for c in DIRECTED]
+    cases = [dict(c) for c in DIRECTED] + [dict(c) for c in c02_multi.DIRECTED]
     for fam, k in counts.items():
         for _ in range(k):
             cases.append(GEN[fam][0](ctx.rng))
@@ -178,7 +180,9 @@ def run_ties(ctx, counts):
     for start, cnt, chk, case in checks:
         detail = chk(out[start:start + cnt])
         ctx.traces_validated += 1
-        if detail is not None:
+        if detail == 'ok-discriminates':
+            ctx.count('multi:history-on-which-the-shared-pool-model-differs')
+        elif detail is not None:
             ctx.disagree('C02 ' + case['family'], {'case': case, 'detail': detail})
 
 
@@ -190,7 +194,7 @@ def replay_case(ctx, case):
         ok = False
     if t.check is not None:
         detail = t.check(ctx.model(t.lines))
-        if detail is not None:
+        if detail is not None and detail != 'ok-discriminates':
             print('  model/implementation:', detail)
             ok = False
     return ok
